@@ -12,11 +12,18 @@ MANIFEST = {
             "(thread, start/end, solution) of every evaluation step of real rayon runs (pools 1,2,3,8,16, with and without "
             "perturbed call timing) is validated by TLC as a legal ParEval interleaving ending in the expected values with "
             "zero generator draws (a draw-counting generator is supplied). Binding 2 (Trace_Same.tla): for templates x "
-            "seeds, a sequential reference run is followed by variants (same again, cloned configuration, parallel under "
-            "each pool size x timing); every variant must produce, step by step, the reference run's digests (all "
+            "seeds, a stand-alone sequential reference run (fresh configuration object, fresh thread) is followed by "
+            "variants, one class for everything that is not configuration / problem / seed (Required): the same again, a "
+            "cloned configuration, parallel under each pool size x timing, the generator supplied through the entry API "
+            "(or_insert / or_insert_with) or a contains-guarded insert, the same object after it solved a bigger / smaller / "
+            "other instance on this thread or on another one, a clone of such a used object, a thread that ran another "
+            "object on another instance before; every variant must produce, step by step, the reference run's digests (all "
             "populations with solutions and objective bits, best, memories, counters, finally the log) and must leave the "
-            "supplied generator in place. Child generators: same seed => same children, different seeds => different "
-            "streams, no draw before the first component. par_experiment: per-run logs identical across pool sizes 1/4/16.",
+            "supplied generator in place; a group is complete only if every class was shown. Child generators: same seed => "
+            "same children, different seeds => different streams, no draw before the first component whichever way the "
+            "generator is supplied. par_experiment: batches over instances of different sizes (random search, GA with "
+            "uniform crossover on real and binary instances, both ant systems on TSP instances) under pools 1/2/4/16: every "
+            "per-run log decodes to the log of the stand-alone run (fresh object, fresh thread, run number as seed).",
     "technique": "TLA+ spec + TLC model checking of all interleavings + TLC trace validation of real schedules and of run digests",
     "design_ref": "DESIGN.md §6 C08",
     "note": "rayon's scheduler cannot be enumerated: real schedules are sampled (pool sizes x perturbed timings), the model's are exhaustive",
